@@ -80,6 +80,7 @@ type (
 		cols        []colDef
 		constraints []constraintDef
 	}
+	alterMulti         struct{ actions []any }
 	alterAddConstraint struct {
 		table string
 		c     constraintDef
@@ -944,32 +945,44 @@ func (p *parser) alterStmt() (any, *Error) {
 	if err != nil {
 		return nil, err
 	}
-	switch {
-	case p.acceptKw("add"):
-		c, ok, err := p.constraint("")
-		if err != nil {
-			return nil, err
+	var actions []any
+	for {
+		switch {
+		case p.acceptKw("add"):
+			c, ok, err := p.constraint("")
+			if err != nil {
+				return nil, err
+			}
+			if !ok {
+				return nil, p.errHere("unsupported ALTER TABLE ADD")
+			}
+			actions = append(actions, alterAddConstraint{table: table, c: c})
+		case p.acceptKw("alter"):
+			p.acceptKw("column")
+			col, err := p.ident()
+			if err != nil {
+				return nil, err
+			}
+			if err := p.expectKw("set", "default"); err != nil {
+				return nil, err
+			}
+			e, err := p.expr()
+			if err != nil {
+				return nil, err
+			}
+			actions = append(actions, alterSetDefault{table: table, col: col, def: e})
+		default:
+			return nil, p.errHere("unsupported ALTER TABLE action")
 		}
-		if !ok {
-			return nil, p.errHere("unsupported ALTER TABLE ADD")
+		// ALTER TABLE t action [, action ...]
+		if !p.acceptSym(",") {
+			break
 		}
-		return alterAddConstraint{table: table, c: c}, nil
-	case p.acceptKw("alter"):
-		p.acceptKw("column")
-		col, err := p.ident()
-		if err != nil {
-			return nil, err
-		}
-		if err := p.expectKw("set", "default"); err != nil {
-			return nil, err
-		}
-		e, err := p.expr()
-		if err != nil {
-			return nil, err
-		}
-		return alterSetDefault{table: table, col: col, def: e}, nil
 	}
-	return nil, p.errHere("unsupported ALTER TABLE action")
+	if len(actions) == 1 {
+		return actions[0], nil
+	}
+	return alterMulti{actions}, nil
 }
 
 // ---- expressions ----------------------------------------------------------
